@@ -29,6 +29,9 @@ def is_sym(x):
     return isinstance(x, z3.ExprRef)
 
 
+_MULC = z3.Function("mulc", z3.RealSort(), z3.RealSort(), z3.RealSort())
+
+
 class XR:
     """value in R ∪ {+inf, -inf}; `v` is the payload when neither flag holds"""
 
@@ -209,7 +212,15 @@ def _f_sub(a, b):
     return _arith(a, b, lambda x, y: x - y)
 
 
+OPAQUE_MUL = [False]  # when set, symbolic*symbolic real products become a commutative uninterpreted function
+
+
 def _f_mul(a, b):
+    if OPAQUE_MUL[0] and is_sym(a) and is_sym(b) and not z3.is_bool(a) and not z3.is_bool(b):
+        ra, rb = _real(a), _real(b)
+        if ra.get_id() > rb.get_id():
+            ra, rb = rb, ra
+        return _MULC(ra, rb)
     if _is_bool_like(a) and is_sym(a):
         return s_where(a, b, 0.0 if _is_float_like(b) else 0)
     if _is_bool_like(b) and is_sym(b):
